@@ -39,9 +39,6 @@ BIG = (16, 16, 8)        # 2048 voxels: 16384 bytes as float64, 8192 as float32 
 VECS = [(4096, 1, 1), (1, 4096, 1), (1, 1, 1, 4096)]
 EXT = {'N': '.nii', 'P': '.img', 'M': '.mgh', 'A': '.img'}
 
-S_C09D = ('an image built around np.asarray(img.dataobj) (a base-class VIEW of the memory map; also memmap.view(np.ndarray)) and '
-          'saved onto the mapped file: unmap_if_target only recognises np.memmap instances with a filename, the target is '
-          'truncated under the live map - SIGBUS when the data exceed a page, zeros written otherwise')
 S_C09B = ('get_fdata() of an image whose cached array is the memory map of a plain file (float64 NIfTI) that a later '
           'save of ANOTHER image object has overwritten with a shorter file: SIGBUS when the data exceed a page (silently '
           'different values otherwise); inherent to mmap (the same image saving onto its own file drops its caches '
@@ -146,7 +143,7 @@ def gen_tables():
            'Definition platform_cfg (n : Z) (paths : list pinfo) (fids : list nat) (fx : bool)',
            '    (scale : list (fmt * dtype * nat * nat)) (mixed lowdim : bool) : cfg :=',
            '  mkCfg n platform_page paths fids platform_off platform_foot platform_conv fx scale platform_nointer',
-           '        mixed lowdim true true platform_tclass.', '']
+           '        mixed lowdim true true platform_tclass true.', '']
     p = os.path.join(common.COQ, 'C09', 'Tables.v')
     new = '\n'.join(txt)
     if not os.path.exists(p) or open(p).read() != new:
@@ -263,7 +260,7 @@ def model_line(hid, cfgname, shape, imgs, ops, facts, fix=1, shift=0):
     conv = ';'.join(f'{a}:{b}:{d}:{r}' for a, b, d, r in facts['conv']) or '-'
     rows, _ = scale_table(shape, shift)
     scale = ';'.join(f'{f}:{d}:{v}:{k}' for f, d, v, k in rows) or '-'
-    flags = f"{int(shift != 0)}{int(len(shape) < 3)}11"
+    flags = f"{int(shift != 0)}{int(len(shape) < 3)}111"
     return (f"{hid} run {fix} {facts['page']} {n} " + ','.join(str(facts['off'][k]) for k in 'NPMA') + ' ' +
             ','.join(str(facts['foot'][k]) for k in 'NPMA') + ' ' + conv + ' ' + scale + ' ' +
             ''.join(str(int(facts['nointer'][k])) for k in 'NPMA') + ' ' + flags + ' ' +
@@ -385,6 +382,9 @@ def tok_match(m, i):
     return False
 
 
+PLAN_INFO = {}
+
+
 def plan_cases(chk):
     rng = chk.rng
     thorough = chk.tier == 'thorough'
@@ -406,7 +406,7 @@ def plan_cases(chk):
                         skip = True
                         break
                 if not skip:
-                    plan.append((cfgname, shape, imgs, ops, tag))
+                    plan.append((cfgname, shape, imgs, ops, 'enum'))
 
     first_loads = ['L00T', 'L00F', 'L01T']
     for cfgname in CONFIGS:
@@ -436,7 +436,7 @@ def plan_cases(chk):
                 for rest in itertools.product(alpha2, repeat=2):
                     ops = [f] + list(rest)
                     if any(t[0] in 'TCM' for t in ops) and not (ops[1][1] == '1' and ops[1][0] != 'L'):
-                        plan.append((cfgname, shape, [None, None], ops, 'exhaustive'))
+                        plan.append((cfgname, shape, [None, None], ops, 'enum'))
     # mmap='r' (read-only map): same aliasing as the copy-on-write map; edits of the array are refused
     for cfgname in ('nii', 'pair', 'mgh', 'nii-links'):
         for shape in (SMALL, BIG):
@@ -454,18 +454,15 @@ def plan_cases(chk):
         for shape in (SMALL, BIG):
             for seq in itertools.product(sv3, repeat=3 if (thorough or shape == SMALL) else 2):
                 if seq[0][0] != 'L':
-                    plan.append((cfgname, shape, [None, None], ['L00T'] + list(seq), 'exhaustive'))
+                    plan.append((cfgname, shape, [None, None], ['L00T'] + list(seq), 'enum'))
     # a NEW image object of the same class around np.asanyarray(dataobj) (a), get_fdata() (f) or np.asarray(dataobj)
     # (v: a base-class view of the map), then saves onto the mapped file / elsewhere, reads, dtype changes
     alpha3 = ['A01a', 'A01f', 'A01v', 'S10', 'S11', 'F1', 'D1', 'S00', 'F0', 'U0']
-    for cfgname, shapes in (('nii', (SMALL, BIG)), ('pair', (SMALL,)), ('mgh', (SMALL, BIG)), ('spm', (SMALL,)),
-                            ('nii-links', (SMALL,))):
-        for shape in shapes if not thorough else (SMALL, BIG):
+    for cfgname in ('nii', 'pair', 'mgh', 'spm', 'nii-links'):
+        for shape in (SMALL, BIG):
             for seq in itertools.product(alpha3, repeat=3):
-                # beyond a page (and for .img files, truncated to nothing, always) every save of the view onto the mapped
-                # file kills a child: the view is enumerated on small single-file data (zeros written instead), and by three explicit histories per class on the big data
-                if seq[0][0] == 'A' and not ((shape == BIG or cfgname in ('pair', 'spm')) and not thorough and 'A01v' in seq):
-                    plan.append((cfgname, shape, [None, None], ['L00T'] + list(seq), 'exhaustive'))
+                if seq[0][0] == 'A':
+                    plan.append((cfgname, shape, [None, None], ['L00T'] + list(seq), 'enum'))
     for cfgname in ('nii', 'pair', 'mgh', 'spm', 'nii-links'):
         for ops in (['L00T', 'A01v', 'S10'], ['L00T', 'A01v', 'F1', 'T10'], ['L00T', 'A01v', 'S11', 'F1', 'S10']):
             plan.append((cfgname, BIG, [None, None], ops, 'exhaustive'))
@@ -487,9 +484,9 @@ def plan_cases(chk):
     sv = ['S00', 'S01', 'S02', 'S10', 'S11', 'S12', 'F0', 'F1', 'X0']
     for shape, depth in ((SMALL, 3), (BIG, 2)):
         for seq in itertools.product(sv, repeat=depth):
-            plan.append(('spm', shape, [None, None], ['L00T', 'L11T'] + list(seq), 'exhaustive'))
+            plan.append(('spm', shape, [None, None], ['L00T', 'L11T'] + list(seq), 'enum'))
     for seq in itertools.product(['S10', 'S11', 'S12', 'L00T', 'S00', 'S02'], repeat=3):
-        plan.append(('spm', SMALL, [None, ARRAY_SLOT_SPM], list(seq), 'exhaustive'))
+        plan.append(('spm', SMALL, [None, ARRAY_SLOT_SPM], list(seq), 'enum'))
     # a save that fails with ENOSPC (link to /dev/full), then healthy saves
     for cfgname in ('nii', 'pair', 'mgh', 'spm', 'cross'):
         for shape in (SMALL, BIG):
@@ -513,6 +510,21 @@ def plan_cases(chk):
         add('nii', BIG, [None, None], ['L00T', 'F0', 'L10T'], 4)
         add('mgh', SMALL, [None, None], ['L00T', 'F0'], 3)
         add('nii-mixed', BIG, [None, None], ['L01T', 'F0', 'L10T'], 3)
+    # quick tier: the explicit histories all run; of the enumerated sets a seed-independent core (every third
+    # history of each enumeration, in enumeration order) plus a seeded random sample of the rest; thorough: all
+    enum = [h for h in plan if h[4] == 'enum']
+    plan = [h for h in plan if h[4] != 'enum']
+    if thorough:
+        plan += [h[:4] + ('exhaustive',) for h in enum]
+        sampled = {'enumerated': len(enum), 'core': len(enum), 'random_rest': 0}
+    else:
+        core = [h for i, h in enumerate(enum) if i % 3 == 0]
+        rest = [h for i, h in enumerate(enum) if i % 3 != 0]
+        extra = rng.sample(rest, len(rest) // 8)
+        plan += [h[:4] + ('exhaustive',) for h in core] + [h[:4] + ('enum_sample',) for h in extra]
+        sampled = {'enumerated': len(enum), 'core': len(core), 'random_rest': len(extra)}
+    PLAN_INFO.clear()
+    PLAN_INFO.update(sampled)
     n_exh = len(plan)
     names = [c for c in CONFIGS if not c.startswith('lowdim')]
     for _ in range(chk.n(1500, 20000)):
@@ -592,7 +604,7 @@ def run(chk: Check):
     chk.extra['platform_facts'] = {'offsets': facts['off'], 'trailing': facts['foot'], 'page': facts['page'],
                                    'conversions': ['%s->%s %s=>%s' % c for c in facts['conv']]}
     plan, n_exh = plan_cases(chk)
-    chk.extra['exhaustive_core'] = {'histories': n_exh, 'alphabet': ALPHA}
+    chk.extra['exhaustive_core'] = {'histories': n_exh, 'alphabet': ALPHA, 'enumerations': dict(PLAN_INFO)}
     jobs = []
     for k, (cfgname, shape, imgs, ops, tag) in enumerate(plan):
         shift, approx = history_flags(shape, tag, ops, cfgname)
@@ -645,17 +657,11 @@ def run(chk: Check):
                 n_crash_known += 1
                 chk.known('S-C09b', S_C09B)
                 chk.tagc('known:S-C09b:' + ('array' if 'alias=array' in info else 'cache'))
-            elif itoks[kc] == 'crash' and ops[kc][0] in 'STW' and 'viewmap=1' in info:
-                n_crash_known += 1
-                chk.known('S-C09d', S_C09D)
-                chk.tagc('known:S-C09d:crash')
+
             else:
                 fails.append(f'the interpreter died at step {kc} ({ops[kc]}): {sig}')
         for kp, what, sig in r['pred']:     # (S-C09c, once classified here by its signature, is fixed: 29b7b6ce)
-            if 'viewmap=1' in r['info'].get(kp, '') and (what.startswith('file_differs') or what.startswith('unusable')):
-                chk.known('S-C09d', S_C09D)
-                chk.tagc('known:S-C09d:' + what.split(':')[0])
-            elif sig == 'array_map':
+            if sig == 'array_map':     # (S-C09d, once classified here, is fixed: 9bb93cff)
                 chk.known('S-C09b', S_C09B)
                 chk.tagc('known:S-C09b:array_is_map_of_rewritten_file')
             else:
@@ -672,19 +678,6 @@ def run(chk: Check):
                 cv.append((case, itoks, ['<not modelled: expected ' + ' and '.join(want) + ' and no unexpected error>']))
             continue
         agree = len(mtoks) == len(itoks) and all(tok_match(m, i) for m, i in zip(mtoks, itoks))
-        if not agree:
-            # inside the S-C09d defect (an unrecognised view of a map of the target is saved) the outcome is a crash or
-            # garbage in the file: the model decides between them by the page arithmetic of a whole-array read, the
-            # writer's slab order can turn one into the other - either way the finding is reported; the rest of such a
-            # history is not compared (one side is dead)
-            def bad_save(t):
-                return t == 'crash' or (t.startswith('saved:') and t.split(':')[2] == 'G')
-            for kk, (m_, i_) in enumerate(zip(mtoks, itoks)):
-                if not tok_match(m_, i_):
-                    if 'viewmap=1' in r['info'].get(kk, '') and bad_save(m_) and bad_save(i_):
-                        agree = True
-                        chk.tagc('s_c09d_crash_vs_garbage_not_compared')
-                    break
         if not agree:
             chk.disagreements += 1
             if not fails:
@@ -712,9 +705,9 @@ def run(chk: Check):
         'map of a file that ANOTHER image object later shortens); proved instead: C09_save_never_crashes (all '
         'histories), C09_no_crash (every history on which the computed predicate `affected` is false), '
         'C09_affected_is_real (tightness), C09_no_crash_partial (static sufficient condition)',
-        'C09_save_never_crashes / C09_files_decode carry the side conditions backed (no unbacked live map: else S-C09b) '
-        'and not risky (the saver is not an unrecognised view of a map of the target: else S-C09d, '
-        'C09_view_of_map_refuted); C09_usable excludes a saver whose own array maps the target (S-C09b)',
+        'C09_save_never_crashes / C09_files_decode carry the side condition backed (no unbacked live map: else S-C09b); '
+        'C09_usable excludes a saver whose own array maps the target (S-C09b); S-C09d is fixed (9bb93cff): '
+        'C09_view_of_map_refuted keeps its witnesses with the repair switched off',
         'C09_files_decode: the file holds written(g, fmt, dtype, v): it decodes to v except when MGH (no scaling) clips '
         'data of both signs to uint8 (lemma written_val); integer quantisation itself is C02\'s subject; C09_usable '
         'carries the same exclusion and the side conditions names_wf / classes_ok (invariant of every run)']
